@@ -17,7 +17,7 @@ META = {
         "one underlying pattern, Bivincular/Vincular/Covincular, twins = the same shading through different "
         "classes), each built in EVERY order (<= 24) and with one repeated element, through Basis / MeshBasis / "
         "from_iterable / Av / Av.from_iterable (lists, tuples, one-shot iterators); digit strings 0- and 1-based "
-        "with assorted separators for from_string; plus exhaustive small classical multisets and every set of 2-3 (4 thorough) shadings of the one-point pattern. Oracle: the set of "
+        "with assorted separators for from_string; plus exhaustive small classical multisets every set of 2-3 (4 thorough) shadings of the one-point pattern, every 3-subset of the classical patterns of length 3-4, and bases around the Erdos-Szekeres bound. Oracle: the set of "
         "containment-minimal elements (reference mesh-in-mesh containment) and brute-force class equality. "
         "Non-trivial: some input element contains another (pruning must happen) or >= 2 different pattern "
         "classes are mixed. Distinct = multiset content."
@@ -80,6 +80,8 @@ def check_basis(case):
             else:
                 return BAD("raises", {"order": order, "exc": f"{type(exc).__name__}: {exc}"})
         except Exception as exc:
+            if not engine.is_lib_exception(exc):
+                raise
             return BAD("raises", {"order": order, "exc": f"{type(exc).__name__}: {exc}"})
         for b in built:
             want_type = Basis if all_classical else MeshBasis
@@ -137,6 +139,8 @@ def check_from_string(case):
     try:
         b0, b1 = Basis.from_string(zero), Basis.from_string(one)
     except Exception as exc:
+        if not engine.is_lib_exception(exc):
+            raise
         return BAD("from_string_raises", {"zero": zero, "one": one, "exc": repr(exc)})
     want = Basis(*[Perm(p) for p in perms])
     if b0 != b1 or b0 != want or hash(b0) != hash(want):
@@ -192,8 +196,19 @@ def twins(draw):
 
 @st.composite
 def basis_cases(draw):
-    mode = draw(st.sampled_from(["classical", "classical", "mixed", "mixed", "nested", "twins"]))
-    if mode == "classical":
+    mode = draw(st.sampled_from(["classical", "classical", "mixed", "mixed", "nested", "twins", "erdos_szekeres"]))
+    if mode == "erdos_szekeres":
+        # an increasing and a decreasing pattern plus patterns around the Erdos-Szekeres bound
+        # (a-1)(b-1) that avoid both: the finite-class boundary
+        a, b = draw(st.integers(2, 4)), draw(st.integers(2, 3))
+        patts = [list(range(a)), list(range(b - 1, -1, -1))]
+        bound = (a - 1) * (b - 1)
+        for _ in range(draw(st.integers(1, 2))):
+            n = max(1, bound + draw(st.integers(-1, 1)))
+            cands = [p for p in ref.perms(min(n, 5)) if not ref.contains(p, tuple(patts[0])) and not ref.contains(p, tuple(patts[1]))]
+            if cands:
+                patts.append(list(draw(st.sampled_from(cands))))
+    elif mode == "classical":
         patts = [list(p) for p in draw(st.lists(gen.perms(0, 4), min_size=1, max_size=4))]
         if draw(st.booleans()) and patts:
             # force a containment: extend one element by a point
@@ -238,6 +253,14 @@ def shard_small_classical(acc, shard, nshards, max_len, max_size):
             i += 1
 
 
+def shard_triples_classical(acc, shard, nshards, lo, hi):
+    """every 3-subset of the classical patterns of length lo..hi (4060 for 3..4)"""
+    pats = [list(p) for n in range(lo, hi + 1) for p in ref.perms(n)]
+    for i, combo in enumerate(itertools.combinations(pats, 3)):
+        if i % nshards == shard:
+            acc.record("basis", check_basis, {"patts": list(combo), "n": 5})
+
+
 def shard_small_mesh(acc, shard, nshards, sizes):
     """every set of 2..sizes mesh patterns on the underlying pattern 0 (all 16 shadings)"""
     cells = [(0, 0), (0, 1), (1, 0), (1, 1)]
@@ -259,8 +282,10 @@ def run(acc, tier):
     if tier == "quick":
         engine.pmap(acc, shard_small_classical, extra=(3, 2))
         engine.pmap(acc, shard_small_mesh, extra=(3,))
+        engine.pmap(acc, shard_triples_classical, extra=(3, 4))
         engine.pmap(acc, shard_generated, extra=(120, 80))
     else:
         engine.pmap(acc, shard_small_classical, extra=(3, 3))
         engine.pmap(acc, shard_small_mesh, extra=(4,))
+        engine.pmap(acc, shard_triples_classical, extra=(2, 4))
         engine.pmap(acc, shard_generated, extra=(1500, 800))
